@@ -901,6 +901,7 @@ func runCases(cases []ecaseJ, wait time.Duration) (rendered []string, outs []any
 			rendered[ci] = renderE2E(c, res, snaps, sawAE)
 			outs[ci] = e2eOut{c, res.Done, res.Err}
 			smu.Lock()
+			note(rendered[ci], res.Done >= 2)
 			stats["connections"]++
 			stats["exchanges_completed"] += res.Done
 			stats["exchanges_requested"] += len(c.Exchs)
@@ -1175,6 +1176,9 @@ func runTiming(scens []tscen) (rendered []string, outs []any, minSlackUs int64) 
 			}
 			mu.Unlock()
 			rendered[si] = fmt.Sprintf("{| t_checks := %s; t_expected := %d |}", coqfmt.List("(Z * Z)", parts), countReq(sc.BodyEnd, len(sc.Pieces)))
+			mu.Lock()
+			note(fmt.Sprint(si, sc.Class), len(checks) > 0)
+			mu.Unlock()
 			outs[si] = tOut{sc, checks}
 		}(si)
 	}
